@@ -11,8 +11,7 @@ PROPS_ENTRY = {'models': ['Model/Init.v', 'Model/InitSpec.v'],
                  'the token asserts of the pre-posting loops (input, OwningQueue::new, VirtIONet::new: token == i) are not re-proved here (C19_new_stocked); '
                  'queue.add of one buffer on a queue with a free descriptor cannot fail (C01/C03)',
                  'release actions of a failing constructor (dealloc, unshare, queue_unset, reset on drop) are left out of the compared log: property C09',
-                 'the 9p constructor is modelled as it is today (mount tag read after DRIVER_OK, defect F3 of C09); when that repair lands the last two statements of '
-                 '`body D9p` swap',
+                 'the 9p constructor is modelled as repaired by f0b6ba0 (F3 of C09): the mount tag is read before finish_init',
                  'feature-gated operations are modelled for the first request on a fresh queue against a device that completes a chain by zero-filling its writable part',
                  'VirtIO 1.2 3.1.1 step 6 (re-read the status to see that FEATURES_OK stuck) is not performed by begin_init; the property text does not ask for it and the '
                  'automaton does not require it (recorded as an observation)'],
